@@ -15,7 +15,7 @@ RULES[PID] = ("e2e leg c04-e2e: seeded generated Rust programs (loops, recursion
               "for every function info of those units (user functions, closures, generic instances, std generics instantiated in the crate). Coq "
               "evaluates the model on the exported tables (exact answer) and the specification on llvm-dwarfdump's rows. The same questions go "
               "through the public API (set_breakpoint_at_line / set_breakpoint_at_fn / breakpoint_places_for_file_range before the start, "
-              "resolve_function_at_pc after a real start stopped at main) and must give the hook answers. c04-witness: the same on a hand-written "
+              "resolve_function_at_pc after a real start stopped at main) and must give the hook answers. c04-witness (quick tier: the two Rust programs with the default toolchain only): the same on hand-written programs - w7: different subprograms with one DW_AT_name sharing source lines (methods generated for two types by one macro, two `new` inlining one helper, the closures of two functions) - and on a hand-written "
               "Rust program (two functions sharing a source line, closure on its creation line) with 3 toolchains + opt-level 1 and a two-file C "
               "program with gcc (DWARF 5 / 4) and clang. Non-trivial: the answer is a row / function / non-empty place list; distinct by "
               "(tables, question, answer).")
@@ -64,10 +64,10 @@ def run(tier, seed):
             # not an address <-> source disagreement: `break <generic fn>` finds nothing on nightly although the DIEs have places
             ctx.violate("impl-violates-spec", "c04-e2e function name search", {"failures": s["fn_name_search_failures"][:5]},
                         key="c04:fn-name-search", found_input=True)
-        if tier == "thorough":
+        if True:
             import os
             wdir = os.path.join(ctx.cases_dir, "w")
-            s = run_classified_leg(ctx, "c04-witness", [seed, 0, wdir, os.path.join(ctx.scratch, "w")],
+            s = run_classified_leg(ctx, "c04-witness", [seed, 1 if tier == "quick" else 0, wdir, os.path.join(ctx.scratch, "w")],
                                    "an address/source answer disagrees with the binary's line table / function ranges (hand-written witnesses)", classify)
     ctx.refuted += [
         {"theorem": "find_place_by_pc_refuted", "witness": "W1: function B emitted right after A's end: the end_sequence row of A ties with B's first row",
